@@ -2217,8 +2217,18 @@ def lex_tokens(line):
         tokens = ['string', value]
         return LineTokens(line, tokens)
 
+    # character literals may hold a comma, a blank, a parenthesis or the comment character:
+    # replace each by its numeric value before the line is taken apart
+    def char_value(match):
+        try:
+            c = decode_escapes(match.group(1))
+        except UnicodeDecodeError:
+            return match.group(0)
+        return str(ord(c)) if len(c) == 1 else match.group(0)
+    contents = re.sub(r"'(\\.|[^\\'])'", char_value, line.contents)
+
     # strip comments
-    contents = re.sub(r'#.*$', r'', line.contents)
+    contents = re.sub(r'#.*$', r'', contents)
 
     # pad parens before split
     contents = contents.replace('(', ' ( ').replace(')', ' ) ')
